@@ -14,51 +14,37 @@ theorem mem_expand {κ : Type} [DecidableEq κ] (m : List (κ × Nat)) (hp : All
 
 /-- first loop of `Aggregate` seen from one bin -/
 theorem firstLoop_lookup (gval : Nat → String) (hinj : ∀ a b, gval a = gval b → a = b)
-    (gbne : List (Nat × Nat)) (hn : KeysNodup gbne) (hpos : AllPos gbne) (collect : Bool) (m g : Nat) :
-    let bins0 := gbne.foldl (fun bs gc => upsert ⟨0, gval gc.1⟩ (fun c => { c with notExists := gc.2 }) bs) []
-    let N := ((expand gbne).filter fun k => k = g).length
-    (bins0.lookup ⟨m, gval g⟩ = none ∧ (m ≠ 0 ∨ N = 0)) ∨
-    (∃ c, bins0.lookup ⟨m, gval g⟩ = some c ∧ m = 0 ∧ N ≠ 0 ∧ Rep [] N collect c) := by
+    (gbne : List ((Nat × Nat) × Nat)) (hn : KeysNodup gbne) (hpos : AllPos gbne) (collect : Bool) (m g : Nat) :
+    let bins0 := gbne.foldl (fun bs gc => upsert ⟨gc.1.1, gval gc.1.2⟩ (fun c => { c with notExists := gc.2 }) bs) []
+    let N := ((expand gbne).filter fun k => k = (m, g)).length
+    (bins0.lookup ⟨m, gval g⟩ = none ∧ N = 0) ∨
+    (∃ c, bins0.lookup ⟨m, gval g⟩ = some c ∧ N ≠ 0 ∧ Rep [] N collect c) := by
   intro bins0 N
-  have hl := lookup_foldl_upsert (fun gc : Nat × Nat => (⟨0, gval gc.1⟩ : Bin))
+  have hl := lookup_foldl_upsert (fun gc : (Nat × Nat) × Nat => (⟨gc.1.1, gval gc.1.2⟩ : Bin))
     (fun gc c => { c with notExists := gc.2 }) gbne [] ⟨m, gval g⟩
-  by_cases hm : m = 0
-  · subst hm
-    have hf : gbne.filter (fun gc => (⟨0, gval gc.1⟩ : Bin) = ⟨0, gval g⟩) = gbne.filter (fun gc => gc.1 = g) := by
-      apply List.filter_congr
-      intro gc _
-      simp only [Bin.mk.injEq, true_and, decide_eq_decide]
-      exact ⟨fun e => hinj _ _ e, fun e => by rw [e]⟩
-    rw [hf] at hl
-    have hN : N = (expand (gbne.filter fun gc => gc.1 = g)).length := by
-      show ((expand gbne).filter fun k => k = g).length = _
-      rw [← expand_filter (fun k => decide (k = g))]
-    rcases filter_key_le_one gbne hn g with h0 | ⟨c, h1⟩
-    · left
-      rw [h0] at hl hN
-      exact ⟨by simpa using hl, Or.inr (by simpa [expand] using hN)⟩
-    · right
-      rw [h1] at hl hN
-      have hc : 0 < c := hpos (g, c) (by
-        have : (g, c) ∈ gbne.filter (fun gc => gc.1 = g) := by rw [h1]; simp
-        exact (List.mem_filter.mp this).1)
-      have hN' : N = c := by simpa [expand] using hN
-      refine ⟨_, by simpa using hl, rfl, by omega, ?_⟩
-      rw [hN']
-      have := Rep.new collect
-      exact ⟨this.total, rfl, this.sum, this.min, this.max, this.samples⟩
+  have hf : gbne.filter (fun gc => (⟨gc.1.1, gval gc.1.2⟩ : Bin) = ⟨m, gval g⟩) = gbne.filter (fun gc => gc.1 = (m, g)) := by
+    apply List.filter_congr
+    intro gc _
+    simp only [Bin.mk.injEq, decide_eq_decide]
+    exact ⟨fun e => Prod.ext e.1 (hinj _ _ e.2), fun e => by rw [e]; exact ⟨rfl, rfl⟩⟩
+  rw [hf] at hl
+  have hN : N = (expand (gbne.filter fun gc => gc.1 = (m, g))).length := by
+    show ((expand gbne).filter fun k => k = (m, g)).length = _
+    rw [← expand_filter (fun k => decide (k = (m, g)))]
+  rcases filter_key_le_one gbne hn (m, g) with h0 | ⟨c, h1⟩
   · left
-    have hf : gbne.filter (fun gc => (⟨0, gval gc.1⟩ : Bin) = ⟨m, gval g⟩) = [] := by
-      rw [List.filter_eq_nil_iff]
-      intro gc _
-      simp only [Bin.mk.injEq, decide_eq_true_eq, not_and]
-      intro e; exact absurd e.symm hm
-    rw [hf] at hl
-    exact ⟨by simpa using hl, Or.inl hm⟩
-
-end SV.Agg
-
-namespace SV.Agg
+    rw [h0] at hl hN
+    exact ⟨by simpa using hl, by simpa [expand] using hN⟩
+  · right
+    rw [h1] at hl hN
+    have hc : 0 < c := hpos ((m, g), c) (by
+      have : ((m, g), c) ∈ gbne.filter (fun gc => gc.1 = (m, g)) := by rw [h1]; simp
+      exact (List.mem_filter.mp this).1)
+    have hN' : N = c := by simpa [expand] using hN
+    refine ⟨_, by simpa using hl, by omega, ?_⟩
+    rw [hN']
+    have := Rep.new collect
+    exact ⟨this.total, rfl, this.sum, this.min, this.max, this.samples⟩
 
 theorem evVals_length (fv : Nat → Int) (l : List Ev) (h : ∀ ev, ev ∈ l → ev.f.isSome = true) :
     (evVals fv l).length = l.length := by
@@ -77,18 +63,18 @@ theorem evVals_length (fv : Nat → Int) (l : List Ev) (h : ∀ ev, ev ∈ l →
 when a matching document of that bin and group carries the field (or, for the bin without time, when documents of the
 group lack it), and its container summarises exactly those documents' field values; documents with the field but
 without a group are counted in `NotExists`. -/
-theorem twoRun_spec (lim : Nat) (pick : List Int → Nat) (collect : Bool) (gval : Nat → String)
+theorem twoRun_spec (pb : Bool) (lim : Nat) (pick : List Int → Nat) (collect : Bool) (gval : Nat → String)
     (fval : Nat → Option Int) (evs : List Ev)
     (hinj : ∀ a b, gval a = gval b → a = b) (hp : ParseOk fval evs)
     (hl : collect = true → ∀ m g, (twoDocs m g evs).length ≤ lim) :
-    ∃ a, twoRun lim pick collect gval fval evs = some a ∧
+    ∃ a, twoRun pb lim pick collect gval fval evs = some a ∧
       a.notExists = (evs.filter fun ev => ev.g.isNone && ev.f.isSome).length ∧
       ∀ m g,
-        (a.get ⟨m, gval g⟩ = none ∧ twoDocs m g evs = [] ∧ (m ≠ 0 ∨ twoMissing g evs = 0)) ∨
-        (∃ c, a.get ⟨m, gval g⟩ = some c ∧ (twoDocs m g evs ≠ [] ∨ (m = 0 ∧ twoMissing g evs ≠ 0)) ∧
-           Rep (evVals (fun s => (fval s).getD 0) (twoDocs m g evs)) (if m = 0 then twoMissing g evs else 0) collect c) := by
+        (a.get ⟨m, gval g⟩ = none ∧ twoDocs m g evs = [] ∧ twoMissing pb m g evs = 0) ∨
+        (∃ c, a.get ⟨m, gval g⟩ = some c ∧ (twoDocs m g evs ≠ [] ∨ twoMissing pb m g evs ≠ 0) ∧
+           Rep (evVals (fun s => (fval s).getD 0) (twoDocs m g evs)) (twoMissing pb m g evs) collect c) := by
   let fv : Nat → Int := fun s => (fval s).getD 0
-  have P1 := countMap_props ([] : List (Nat × Nat)) (twoK1 evs) (by simp [KeysNodup]) (by intro kc h; simp at h)
+  have P1 := countMap_props ([] : List ((Nat × Nat) × Nat)) (twoK1 pb evs) (by simp [KeysNodup]) (by intro kc h; simp at h)
   have P2 := countMap_props ([] : List ((Nat × Nat × Nat) × Nat)) (twoK2 evs) (by simp [KeysNodup]) (by intro kc h; simp at h)
   have hparse : ∀ kc, kc ∈ countMap [] (twoK2 evs) → (fval kc.1.2.2).isSome = true := by
     intro kc hkc
@@ -101,7 +87,7 @@ theorem twoRun_spec (lim : Nat) (pick : List Int → Nat) (collect : Bool) (gval
     exact hp ev hev _ hf
   refine ⟨_, by
     unfold twoRun twoAggregate
-    rw [twoStep_fold]
+    rw [twoStep_fold pb]
     simp only [TwoSt.init]
     rw [twoParse_ok fval _ hparse]
     rfl, by simp [TwoSt.init], ?_⟩
@@ -138,12 +124,12 @@ theorem twoRun_spec (lim : Nat) (pick : List Int → Nat) (collect : Bool) (gval
     obtain ⟨kc, hkc, rfl⟩ := List.mem_map.mp he
     exact P2.2.1 kc (List.mem_filter.mp hkc).1
   -- the first loop
-  have hN : ((expand (countMap [] (twoK1 evs))).filter fun k => k = g).length = twoMissing g evs := by
-    rw [← missingKeys_filter g evs]
+  have hN : ((expand (countMap [] (twoK1 pb evs))).filter fun k => k = (m, g)).length = twoMissing pb m g evs := by
+    rw [← missingKeys_filter pb m g evs]
     apply List.Perm.length_eq
     apply List.Perm.filter
     simpa [expand] using P1.2.2
-  have hfirst := firstLoop_lookup gval hinj (countMap [] (twoK1 evs)) P1.1 P1.2.1 collect m g
+  have hfirst := firstLoop_lookup gval hinj (countMap [] (twoK1 pb evs)) P1.1 P1.2.1 collect m g
   simp only [hN] at hfirst
   have hdocs_len : (evVals fv (twoDocs m g evs)).length = (twoDocs m g evs).length :=
     evVals_length fv _ (fun ev hev => by
@@ -153,19 +139,19 @@ theorem twoRun_spec (lim : Nat) (pick : List Int → Nat) (collect : Bool) (gval
   -- abbreviations
   generalize hE : (((countMap [] (twoK2 evs)).filter fun kc => kc.1.1 = m ∧ kc.1.2.1 = g).map
       fun kc => (kc.1, fv kc.1.2.2, kc.2)) = Ek at hvals hposE ⊢
-  generalize hB : (countMap [] (twoK1 evs)).foldl
-      (fun bs gc => upsert ⟨0, gval gc.1⟩ (fun c => { c with notExists := gc.2 }) bs) [] = bins0 at hfirst ⊢
+  generalize hB : (countMap [] (twoK1 pb evs)).foldl
+      (fun bs gc => upsert ⟨gc.1.1, gval gc.1.2⟩ (fun c => { c with notExists := gc.2 }) bs) [] = bins0 at hfirst ⊢
   by_cases hEk : Ek = []
   · subst hEk
     have hv0 : evVals fv (twoDocs m g evs) = [] := by simpa using hvals.symm
     have hd0 : twoDocs m g evs = [] := by
       apply List.eq_nil_of_length_eq_zero; rw [← hdocs_len, hv0]; rfl
     simp only [List.filter_nil, if_true]
-    rcases hfirst with ⟨h1, h2⟩ | ⟨c, h1, h2, h3, h4⟩
+    rcases hfirst with ⟨h1, h2⟩ | ⟨c, h1, h3, h4⟩
     · left; exact ⟨h1, hd0, h2⟩
     · right
-      refine ⟨c, h1, Or.inr ⟨h2, h3⟩, ?_⟩
-      rw [hv0]; simpa [h2] using h4
+      refine ⟨c, h1, Or.inr h3, ?_⟩
+      rw [hv0]; exact h4
   · right
     simp only [hEk, if_false]
     have hflat_ne : (Ek.flatMap fun e => List.replicate e.2.2 e.2.1) ≠ [] := by
@@ -182,15 +168,10 @@ theorem twoRun_spec (lim : Nat) (pick : List Int → Nat) (collect : Bool) (gval
       intro h0
       rw [h0] at hvals
       exact hflat_ne (by simpa [evVals] using hvals)
-    have hc0 : Rep [] (if m = 0 then twoMissing g evs else 0) collect ((bins0.lookup ⟨m, gval g⟩).getD SC.new) := by
-      rcases hfirst with ⟨h1, h2⟩ | ⟨c, h1, h2, h3, h4⟩
-      · rw [h1]
-        have : (if m = 0 then twoMissing g evs else 0) = 0 := by
-          rcases h2 with h2 | h2
-          · simp [h2]
-          · simp [h2]
-        rw [this]; exact Rep.new collect
-      · rw [h1]; simpa [h2] using h4
+    have hc0 : Rep [] (twoMissing pb m g evs) collect ((bins0.lookup ⟨m, gval g⟩).getD SC.new) := by
+      rcases hfirst with ⟨h1, h2⟩ | ⟨c, h1, h3, h4⟩
+      · rw [h1, h2]; exact Rep.new collect
+      · rw [h1]; exact h4
     refine ⟨_, rfl, Or.inl hdne, ?_⟩
     have := twoIns_rep lim pick collect Ek [] _ _ hc0 hposE (by
       intro hc
@@ -205,13 +186,13 @@ end SV.Agg
 namespace SV.Agg
 
 /-- explicit form of a successful TwoSourceAggregator run -/
-theorem twoRun_eq (lim : Nat) (pick : List Int → Nat) (collect : Bool) (gval : Nat → String)
+theorem twoRun_eq (pb : Bool) (lim : Nat) (pick : List Int → Nat) (collect : Bool) (gval : Nat → String)
     (fval : Nat → Option Int) (evs : List Ev) (hp : ParseOk fval evs) :
-    twoRun lim pick collect gval fval evs = some
+    twoRun pb lim pick collect gval fval evs = some
       ⟨((countMap [] (twoK2 evs)).map fun kc => (kc.1, (fval kc.1.2.2).getD 0, kc.2)).foldl
           (fun bs e => upsert ⟨e.1.1, gval e.1.2.1⟩ (twoIns lim pick collect e.2.1 e.2.2) bs)
-          ((countMap [] (twoK1 evs)).foldl
-            (fun bs gc => upsert ⟨0, gval gc.1⟩ (fun c => { c with notExists := gc.2 }) bs) []),
+          ((countMap [] (twoK1 pb evs)).foldl
+            (fun bs gc => upsert ⟨gc.1.1, gval gc.1.2⟩ (fun c => { c with notExists := gc.2 }) bs) []),
         0 + (evs.filter fun ev => ev.g.isNone && ev.f.isSome).length⟩ := by
   have P2 := countMap_props ([] : List ((Nat × Nat × Nat) × Nat)) (twoK2 evs) (by simp [KeysNodup]) (by intro kc h; simp at h)
   have hparse : ∀ kc, kc ∈ countMap [] (twoK2 evs) → (fval kc.1.2.2).isSome = true := by
@@ -224,16 +205,16 @@ theorem twoRun_eq (lim : Nat) (pick : List Int → Nat) (collect : Bool) (gval :
     rw [← he]
     exact hp ev hev _ hf
   unfold twoRun twoAggregate
-  rw [twoStep_fold]
+  rw [twoStep_fold pb]
   simp only [TwoSt.init]
   rw [twoParse_ok fval _ hparse]
   rfl
 
 /-- a bin whose token is not the value of any group source does not exist in the result -/
-theorem twoRun_absent (lim : Nat) (pick : List Int → Nat) (collect : Bool) (gval : Nat → String)
+theorem twoRun_absent (pb : Bool) (lim : Nat) (pick : List Int → Nat) (collect : Bool) (gval : Nat → String)
     (fval : Nat → Option Int) (evs : List Ev) (hp : ParseOk fval evs) (k : Bin) (hk : ∀ g, gval g ≠ k.token) :
-    ∃ a, twoRun lim pick collect gval fval evs = some a ∧ a.get k = none := by
-  refine ⟨_, twoRun_eq lim pick collect gval fval evs hp, ?_⟩
+    ∃ a, twoRun pb lim pick collect gval fval evs = some a ∧ a.get k = none := by
+  refine ⟨_, twoRun_eq pb lim pick collect gval fval evs hp, ?_⟩
   simp only [AS.get]
   rw [lookup_foldl_upsert (fun e : (Nat × Nat × Nat) × Int × Nat => (⟨e.1.1, gval e.1.2.1⟩ : Bin))
     (fun e c => twoIns lim pick collect e.2.1 e.2.2 c)]
@@ -245,12 +226,12 @@ theorem twoRun_absent (lim : Nat) (pick : List Int → Nat) (collect : Bool) (gv
     intro h; exact hk e.1.2.1 (by rw [← h])
   rw [h1]
   simp only [if_true]
-  rw [lookup_foldl_upsert (fun gc : Nat × Nat => (⟨0, gval gc.1⟩ : Bin)) (fun gc c => { c with notExists := gc.2 })]
-  have h2 : (countMap [] (twoK1 evs)).filter (fun gc => (⟨0, gval gc.1⟩ : Bin) = k) = [] := by
+  rw [lookup_foldl_upsert (fun gc : (Nat × Nat) × Nat => (⟨gc.1.1, gval gc.1.2⟩ : Bin)) (fun gc c => { c with notExists := gc.2 })]
+  have h2 : (countMap [] (twoK1 pb evs)).filter (fun gc => (⟨gc.1.1, gval gc.1.2⟩ : Bin) = k) = [] := by
     rw [List.filter_eq_nil_iff]
     intro gc _
     simp only [decide_eq_true_eq]
-    intro h; exact hk gc.1 (by rw [← h])
+    intro h; exact hk gc.1.2 (by rw [← h])
   rw [h2]; simp
 
 end SV.Agg
